@@ -60,7 +60,8 @@ class IRExec:
         t = type(e)
         if t is ir.Variable:
             if e.name not in self.env:
-                raise HarnessError(f"undeclared variable {e.name}")
+                raise Violation("ill-formed", ("kernel uses an undeclared variable", e.name),
+                                None if m.concrete else (m.check(), m.solver.model())[1])
             v = self.env[e.name]
             if v is None:
                 m.oblige(False, ("read of uninitialised variable", e.name))
@@ -194,7 +195,8 @@ class IRExec:
         t = type(target)
         if t is ir.Variable:
             if target.name not in self.env:
-                raise HarnessError(f"assignment to undeclared {target.name}")
+                raise Violation("ill-formed", ("kernel assigns an undeclared variable", target.name),
+                                None if m.concrete else (m.check(), m.solver.model())[1])
             self.env[target.name] = self.coerce(value, self.types.get(target.name))
             return
         if t is ir.ArrayIndex:
@@ -306,7 +308,7 @@ class IRExec:
         if len(args) != len(fn.parameters):
             raise HarnessError("arity mismatch")
         for p, a in zip(fn.parameters, args):
-            self.env[p.name.name] = TRef(a)
+            self.env[p.name.name] = TRef(a) if isinstance(a, str) else a
             self.types[p.name.name] = p.type
         try:
             self.ex(fn.body)
